@@ -122,6 +122,7 @@ func (e *Explorer) exploreOnce() error {
 	first := e.Menu(w0, root0, 0)
 	type job struct{ i, j int }
 	var jobs []job
+	auxByI := map[int]any{}
 	for i := range first {
 		b := first[i]
 		next, res := w0.Step(root0, &b, e.WantMid)
@@ -138,6 +139,7 @@ func (e *Explorer) exploreOnce() error {
 		if !e.visit(e.key(next), e.Depth-1) {
 			continue
 		}
+		auxByI[i] = next.Aux
 		for j := range e.Menu(w0, next, 1) {
 			jobs = append(jobs, job{i, j})
 		}
@@ -181,6 +183,7 @@ func (e *Explorer) exploreOnce() error {
 						panic("explorer: level-1 step not reproducible")
 					}
 					mid.Snap = res.Post
+					mid.Aux = auxByI[jb.i]
 					lastI = jb.i
 				}
 				b2 := e.Menu(w, mid, 1)[jb.j]
